@@ -20,6 +20,7 @@ import (
 	"regexp"
 	"strings"
 	"sync"
+	"sync/atomic"
 	"time"
 
 	"github.com/kaptinlin/gozod/core"
@@ -29,6 +30,8 @@ import (
 	"verifharness/hx"
 	"verifharness/storex"
 )
+
+var macCtr atomic.Int64
 
 type scenario struct {
 	name string
@@ -135,6 +138,10 @@ func scenarios() []scenario {
 		{name: "format-caches", rounds: 3, build: func() []func() string {
 			return []func() string{
 				func() string { return verdict(types.MACWithDelimiter("-"), "00-1A-2B-3C-4D-5E") },
+				func() string { // a delimiter not seen before: the cache is written while others read it
+					d := string(rune('a' + macCtr.Add(1)%26))
+					return fmt.Sprint(types.MACWithDelimiter(d) != nil)
+				},
 				func() string { return verdict(types.MAC(), "00:1A:2B:3C:4D:5E") },
 				func() string { return verdict(types.IPv4(), "10.0.0.1") },
 				func() string { return verdict(types.Email(), "a@b.co") },
